@@ -389,6 +389,11 @@ def gen_cases(tier, seed):
         cs.append(c)
     for i in range(0, len(cs), 7):
         cs[i]['both_g'] = True
+    from .common import shape_cases
+    for c in shape_cases(45 if tier == 'quick' else None, seed):
+        c['kind'] = 'level'
+        c['both_g'] = True
+        cs.append(c)
     for i, t in enumerate(CONST_HEAVY):
         cs.append({'kind': 'level', 'src': 'text', 'text': t, 'seed': i, 'both_g': True})
     # grid
